@@ -127,6 +127,7 @@ class PortOracle(UnrollMixin, Hooks):
         return r
 
     name_len = 5        # length of the name looked up (find_named*): decides len(name) tests
+    name_has_space = False     # the looked-up name contains a blank
 
     def _decide(self, cond, st):
         # "the description carries a name after the product string": class bit T
@@ -189,10 +190,19 @@ class PortOracle(UnrollMixin, Hooks):
                                                               field_of(cond.container)[1]))
             return None
         if isinstance(cond, In):
-            nd = needle_of(cond.item)
+            item, respaced = cond.item, False
+            while isinstance(item, Opaque) and item.label == 'm:replace' and len(item.args) == 3 \
+                    and item.args[1] == Str.lit(' ') and isinstance(item.args[2], Str) and \
+                    item.args[2].is_lit() and item.args[2].text() != ' ':
+                item, respaced = item.args[0], True
+            nd = needle_of(item)
             f = field_of(cond.container)
             if nd is None or f is None:
                 return None
+            if respaced and self.name_has_space:
+                # the criteria say the entry holds the name as given; with its spaces rewritten
+                # the needle is a different text and is not found there
+                return False
             k, idx, lowered, offset = f
             pre, suf, nlow = nd
             if not (lowered and nlow):
@@ -326,10 +336,12 @@ def check_lookup(ck, prog, fn, legacy, max_n=2):
     classes = lookup_classes(legacy)
     active = {'P1', 'P2', 'P3', 'P4'} | ({'P5'} if legacy else set())
     pname = fn.params[0]
-    for combo, nlen in [(c, n_) for c in class_lists(classes, max_n) for n_ in (5, 21)]:
+    for combo, nlen, blank in [(c, n_, b_) for c in class_lists(classes, max_n)
+                               for n_, b_ in ((5, False), (21, False), (5, True))]:
         ports = [port(k) for k in range(len(combo))]
         hk = PortOracle(ports, combo)
         hk.name_len = nlen          # a short name and one longer than any "nickname" limit
+        hk.name_has_space = blank   # a name with a blank in it ("East Plotter")
         outs = run_fn(prog, fn, hk, {pname: QUERY})
         want = NONE
         for k, c in enumerate(combo):
@@ -338,7 +350,8 @@ def check_lookup(ck, prog, fn, legacy, max_n=2):
                 break
         got = {('raise' if o.kind == 'raise' else repr(o.value)) for o in outs}
         n += 1
-        inst = '%s ports=%s name of %d characters' % (fn.qualname, describe(combo), nlen)
+        inst = '%s ports=%s name of %d characters%s' % (fn.qualname, describe(combo), nlen,
+                                                       ' with a blank' if blank else '')
         if hk.problems:
             ck.ob('C19-D4-case-insensitive', inst, False,
                   '%s: %s' % (fn.qualname, '; '.join(hk.problems)), fn.loc(),
